@@ -2,4 +2,8 @@
 #pysnark.zkinterface.backend.set_modulus(7237005577332262213973186563042994240857116359379907606001950938285454250989)
 
 from pysnark.zkinterface.backend import *
-set_modulus(7237005577332262213973186563042994240857116359379907606001950938285454250989)
+def select():
+    # the field of this backend (the base module keeps one field for all its variants: the runtime calls
+    # this again when it picks this module among several that were imported beforehand)
+    set_modulus(7237005577332262213973186563042994240857116359379907606001950938285454250989)
+select()
